@@ -6,6 +6,7 @@ import (
 	"fmt"
 	"hash/crc32"
 	"io"
+	"os"
 	"path/filepath"
 	"time"
 
@@ -407,6 +408,35 @@ func (dec *WALDecoder) Decode() (*TimedWALMessage, error) {
 		Msg:  walMsg,
 	}
 	return tMsgWal, err
+}
+
+// walFileTornTail reports whether the WAL file ends in a record that was only
+// partly written (its header is incomplete or announces more bytes than the file
+// holds) behind a sequence of complete records with matching checksums. Any other
+// kind of damage is left to the catchup replay.
+func walFileTornTail(path string) bool {
+	data, err := os.ReadFile(path)
+	if err != nil {
+		return false
+	}
+	for off := 0; off < len(data); {
+		if len(data)-off < 8 {
+			return true
+		}
+		crc := binary.BigEndian.Uint32(data[off : off+4])
+		length := int(binary.BigEndian.Uint32(data[off+4 : off+8]))
+		if length > maxMsgSizeBytes {
+			return false
+		}
+		if len(data)-off-8 < length {
+			return true
+		}
+		if crc32.Checksum(data[off+8:off+8+length], crc32c) != crc {
+			return false
+		}
+		off += 8 + length
+	}
+	return false
 }
 
 type nilWAL struct{}
